@@ -7,6 +7,22 @@ ROOT = "/verif"
 
 # id -> (technique, level text, level note, design ref)
 CHECKS = {
+ "C01": ("proptest-generated producer scripts + fuel/fault/jitter scripts on real threads; exactly-once / order invariant over a global event log",
+         "Schedule- and input-sampling: 1-6 real producer threads run generated op scripts against the real queue and writer thread; stream results, writer progress (fuel gate) and perturbation points are part of the generated case. After shutdown the event log must show every appended entry exactly once, per-producer order, only rate-limited in-band reports as extras.",
+         "Interleavings inside crossbeam/std/tokio primitives are sampled natively, not enumerated; absence is not claimed. Trusts the event log (one mutex, linearised).",
+         "DESIGN.md §2 C01"),
+ "C04": ("stateful proptest over the real WakerTracker (hook H2a) with a model ring buffer + thread-level fuel-gated runs; barrier invariant over the event log; liveness by counting pops",
+         "Two levels: (1) model-based state-machine exploration of the real WakerTracker with real FlushSignals: barrier (S1), busy-loop freedom (S2) and bounded completion (L1, counted in handle calls / written entries); (2) real queue with a fuel-gated stream and a producer that keeps the queue non-empty: completion within capacity+128 written entries, barrier over the log, immediate completion after shutdown.",
+         "Level 1 assumes the preconditions documented in the source for WakerTracker's caller; the send/try_recv/park interleaving is only exercised natively at level 2.",
+         "DESIGN.md §2 C04"),
+ "C05": ("stateful proptest histories (append/clone/drop/flush/forget/drop-handle, typed, boxed, global sink) with a fuel-gated stream; invariant over the event log; termination decided by counting periodic flushes",
+         "Generated shutdown histories on real threads: the join/attach handle is dropped while entries are still queued, or forgotten with all queue handles dropped; the log must show drain, flush-after-last-entry, stream drop, and silence afterwards; the forgotten queue must close its stream before 60 further periodic flushes.",
+         "Thread interleavings sampled; 'runs forever' is decided by counting the writer's own periodic flushes, wall-clock only yields inconclusive.",
+         "DESIGN.md §2 C05"),
+ "C09": ("proptest append/progress scripts on a stalled (fuel-gated) writer, 1-4 producers; sound necessary conditions N1-N5 over the event log; overflow counter from a local metrics recorder",
+         "Generated sequences of appends interleaved with exact amounts of writer progress (including none) for capacities 1-16: order kept, an entry lost only if >= capacity newer ones followed, newest entries always survive a stalled writer, overflow counter == losses, appends never block.",
+         "The survivor set is racy by one entry by design (writer may hold the oldest): only schedule-independent conditions are asserted.",
+         "DESIGN.md §2 C09"),
  "C02": ("proptest-generated entries x formatter configs; strict-JSON validity predicate; libFuzzer target with the same oracle",
          "Generated-input search: arbitrary entry call sequences x all formatter configurations x sampling, every accepted output parsed by an independent strict RFC 8259 parser and checked for the _aws shape; rejected => zero bytes. Finds and shrinks any input that yields malformed output; does not prove absence.",
          "Trusts vh::json (strict parser, unit-tested) and proptest's generators; writer is an in-memory Vec.",
